@@ -173,4 +173,4 @@ def run(fx, rep):
     rep.check(okk, 'R4', 'key-text/plain-display', kb.loc(), 'each variant: write!(f, "{}", payload)',
               'Display for Key renders %s%s: JSON member names are no longer the plain text of the key' % ({k: v for k, v in arms.items()}, (' and calls %s' % other) if other else ''))
     rep.floor('R1', 12 if 'chrono' not in feats else 14)
-    rep.floor('R2', 4)
+    rep.floor('R2', 2)
